@@ -27,6 +27,9 @@ EXPL = (
     "store only validated values into fields that index tables (IM, border colour, RAM page, paging latch)."
 )
 
+# entries whose successful end is covered by a separate exploration from a cut point
+NO_OK_END = {"Vtx::load"}
+
 REVIEWED = os.path.join(os.path.dirname(os.path.dirname(os.path.abspath(__file__))), "reviewed_sites.txt")
 
 
@@ -124,6 +127,7 @@ def run(chk):
     _e, _h = tapeinv.window_methods(prog, with_helpers=True)
     tinv_methods = set(_e) | set(_h)
     n_tinv, n_lia = [0], [0]
+    lib_effects = {}
 
     def collect(entry, rs, ignore_budget=False):
         for r in rs:
@@ -169,6 +173,16 @@ def run(chk):
             if r.outcome == "unreachable":
                 k = "%s/unreachable" % re.sub(r"^rustzx_core::", "", str(r.detail[0]))
                 inv.setdefault(k, []).append((entry, {"kind": "unreachable", "fn": r.detail[0], "loc": r.detail[1], "cond": None}, r))
+        for r in rs:
+            for e in r.trace:
+                if not (e.path in prog.fns and prog.fns[e.path].local):
+                    lib_effects.setdefault(e.path, []).append((entry, e, r))
+        # coverage: an entry whose bounded exploration never reaches a successful end leaves the code behind its cut
+        # loops unexplored (that was the case for Vtx::load, whose tail is now explored from a cut point)
+        okret = [r for r in rs if r.outcome == "return" and not (isinstance(r.ret, Agg) and r.ret.kind == ("adt", "core::result::Result") and r.ret.variant == 1)]
+        if not okret and entry not in NO_OK_END:
+            chk.undecided_("INVENTORY/%s/reaches-end" % entry, "no explored path of %s ends successfully (outcomes %s): code behind a cut loop is not covered" % (
+                entry, sorted(set(r.outcome for r in rs))))
         chk.count("paths", len(rs))
         chk.count("entries")
     # RAM/ROM vector lengths per machine (constructor, C06) as an invariant of the receiving emulator
@@ -260,6 +274,9 @@ def run(chk):
     seek_arguments(chk, prog, framed=tinv_methods)
     # VTX
     vtx(chk, prog, collect)
+    if os.environ.get('VERIF_DUMP_LIB'):
+        for k in sorted(lib_effects):
+            print('LIB', k, len(lib_effects[k]), sorted(set(x[0] for x in lib_effects[k]))[:3])
     # ---------------- verdicts
     n_rev = 0
     for k in sorted(inv):
@@ -431,6 +448,25 @@ def vtx(chk, prog, collect):
                     chk.check(bounded, "ALLOC/Vtx::load/from_elem", "Vtx::load allocates %s bytes taken from the header without a bound" % tm.show(n))
                     chk.count("alloc-sites")
     vtx_frequency_guard(chk, prog)
+    # the tail of Vtx::load (decompression, transposition, construction) lies behind the header's string loop, where
+    # the bounded exploration above is cut: it is explored on its own from the allocation of the decompressed buffer
+    # on, with every local arbitrary (the same cut point as C20's transposition rule)
+    fnl = prog.fn(VTXL)
+    blocks = fnl.body["blocks"]
+    dec = [i for i, b in enumerate(blocks) if b["t"]["k"] == "call" and "path" in b["t"]["f"] and b["t"]["f"]["path"].endswith("::fill_buffer")]
+    alloc = [i for i, b in enumerate(blocks) if b["t"]["k"] == "call" and "path" in b["t"]["f"] and b["t"]["f"]["path"].endswith("vec::from_elem")]
+    if len(dec) != 1 or not [a for a in alloc if a < dec[0]]:
+        chk.undecided_("INVENTORY/Vtx::load/tail/anchor", "allocation of the decompressed buffer before fill_buffer not found (%s, %s)" % (dec, alloc))
+    else:
+        wt = Walker(prog, loop_bound=2, max_paths=4000)
+        wt.effect_hook = lambda w_, st, path, a, d, wh: EffectResult(None, havoc=True)
+        for p in prog.fns:
+            if "delharc::" in p or p.endswith("Vec::<T, A>::push") or p.endswith("Vec::<T>::with_capacity") or p.endswith("::collect") or "Iterator::map" in p:
+                wt.opaque_paths.add(p)
+        rt = wt.run(fnl, [], genv={"R": ("param", "R", 0)}, state=wt.new_state(), start_block=max(a for a in alloc if a < dec[0]))
+        collect("Vtx::load/tail", rt, ignore_budget=True)
+        done = [r for r in rt if r.outcome == "return" and isinstance(r.ret, Agg) and r.ret.variant == 0]
+        chk.check(bool(done), "INVENTORY/Vtx::load/tail/reaches-end", "no explored path of the tail of Vtx::load returns a tune (outcomes %s)" % sorted(set(r.outcome for r in rt)))
     # EOF rule: the header string scan with read() returning 0
     zero_read["on"] = True
     st = w.new_state()
